@@ -967,12 +967,12 @@ impl Clone for TextOutputOptions { #[verifier::external_body] fn clone(&self) ->
 impl Clone for JsonOutputOptions { #[verifier::external_body] fn clone(&self) -> (r: Self) ensures r == *self { unimplemented!() } }
 impl TextProcess {
 //@@ fn textprocess.new = src/output_style.rs :: impl TextProcess :: fn new
-//@@ safety C15
+//@@ safety C15 C11 C06 C16
 //@@ ret r
 //@@ rewrite dyn_write into_printer
 //@@ header
         ensures r.printer.opts() == options && is_table(r.printer.esc_map(), esc_table(options.escape_sequance@, options.escape_sequance@.len() as int))
-            && r.line_seperator == line_seperator && r.length == 0, // @obl PRINT.text.new : C15
+            && r.line_seperator == line_seperator && r.length == 0, // @obl PRINT.text.new : C15 C11 C06 C16
 //@@ endfn
 }
 
